@@ -43,13 +43,13 @@ inductive Header
   deriving DecidableEq, Repr
 
 def Header.raw : Header → List Byte
-  | .contentLength => str "Content-Length"
-  | .contentType => str "Content-Type"
-  | .expect => str "Expect"
-  | .transferEncoding => str "Transfer-Encoding"
-  | .server => str "Server"
-  | .accept => str "Accept"
-  | .acceptEncoding => str "Accept-Encoding"
+  | .contentLength => [0x43, 0x6F, 0x6E, 0x74, 0x65, 0x6E, 0x74, 0x2D, 0x4C, 0x65, 0x6E, 0x67, 0x74, 0x68] /- "Content-Length" -/
+  | .contentType => [0x43, 0x6F, 0x6E, 0x74, 0x65, 0x6E, 0x74, 0x2D, 0x54, 0x79, 0x70, 0x65] /- "Content-Type" -/
+  | .expect => [0x45, 0x78, 0x70, 0x65, 0x63, 0x74] /- "Expect" -/
+  | .transferEncoding => [0x54, 0x72, 0x61, 0x6E, 0x73, 0x66, 0x65, 0x72, 0x2D, 0x45, 0x6E, 0x63, 0x6F, 0x64, 0x69, 0x6E, 0x67] /- "Transfer-Encoding" -/
+  | .server => [0x53, 0x65, 0x72, 0x76, 0x65, 0x72] /- "Server" -/
+  | .accept => [0x41, 0x63, 0x63, 0x65, 0x70, 0x74] /- "Accept" -/
+  | .acceptEncoding => [0x41, 0x63, 0x63, 0x65, 0x70, 0x74, 0x2D, 0x45, 0x6E, 0x63, 0x6F, 0x64, 0x69, 0x6E, 0x67] /- "Accept-Encoding" -/
 
 def Header.all : List Header :=
   [.contentLength, .contentType, .expect, .transferEncoding, .server, .accept, .acceptEncoding]
@@ -83,15 +83,15 @@ def Encoding.tryFrom (bs : List Byte) : Except ReqErr Unit :=
     match utf8Check bs with
     | .error e => .error (.headerError (.invalidUtf8 e))
     | .ok _ =>
-      let hasIdentity := containsSub (str "identity") bs
+      let hasIdentity := containsSub ([0x69, 0x64, 0x65, 0x6E, 0x74, 0x69, 0x74, 0x79] /- "identity" -/) bs
       let rec go : List (List Byte) → Except ReqErr Unit
         | [] => .ok ()
         | enc :: rest =>
           let t := trim enc
-          if t = str "identity;q=0" then
-            .error (.headerError (.invalidValue (str "Accept-Encoding") enc))
-          else if t = str "*;q=0" && !hasIdentity then
-            .error (.headerError (.invalidValue (str "Accept-Encoding") enc))
+          if t = [0x69, 0x64, 0x65, 0x6E, 0x74, 0x69, 0x74, 0x79, 0x3B, 0x71, 0x3D, 0x30] /- "identity;q=0" -/ then
+            .error (.headerError (.invalidValue ([0x41, 0x63, 0x63, 0x65, 0x70, 0x74, 0x2D, 0x45, 0x6E, 0x63, 0x6F, 0x64, 0x69, 0x6E, 0x67] /- "Accept-Encoding" -/) enc))
+          else if t = [0x2A, 0x3B, 0x71, 0x3D, 0x30] /- "*;q=0" -/ && !hasIdentity then
+            .error (.headerError (.invalidValue ([0x41, 0x63, 0x63, 0x65, 0x70, 0x74, 0x2D, 0x45, 0x6E, 0x63, 0x6F, 0x64, 0x69, 0x6E, 0x67] /- "Accept-Encoding" -/) enc))
           else go rest
       go (splitOn COMMA bs)
 
@@ -118,11 +118,11 @@ def Headers.parseHeaderLine (h : Headers) (line : List Byte) : Except ReqErr Hea
         | none => .error (.headerError (.unsupportedValue k v))
       | some .transferEncoding =>
         let t := trim v
-        if t = str "chunked" then .ok { h with chunked := true }
-        else if t = str "identity" then .ok h
+        if t = [0x63, 0x68, 0x75, 0x6E, 0x6B, 0x65, 0x64] /- "chunked" -/ then .ok { h with chunked := true }
+        else if t = [0x69, 0x64, 0x65, 0x6E, 0x74, 0x69, 0x74, 0x79] /- "identity" -/ then .ok h
         else .error (.headerError (.unsupportedValue k v))
       | some .expect =>
-        if trim v = str "100-continue" then .ok { h with expect := true }
+        if trim v = [0x31, 0x30, 0x30, 0x2D, 0x63, 0x6F, 0x6E, 0x74, 0x69, 0x6E, 0x75, 0x65] /- "100-continue" -/ then .ok { h with expect := true }
         else .error (.headerError (.unsupportedValue k v))
       | some .server => .ok h
       | some .acceptEncoding =>
